@@ -19,7 +19,7 @@ FAULTS = [s for s in SYMBOLS if s != "ok"]
 
 
 class Peer(object):
-    def __init__(self, sched, family="tcp", script=(), reply_fn=None, encoding="identity", http10=False):
+    def __init__(self, sched, family="tcp", script=(), reply_fn=None, encoding="identity", http10=False, close_delimited=False):
         self.s = sched
         self.family = family
         self.script = list(script)
@@ -28,6 +28,7 @@ class Peer(object):
         self.reply_fn = reply_fn or self.echo_reply
         self.encoding = encoding  # identity | gzip | chunked
         self.http10 = http10
+        self.close_delimited = close_delimited  # healthy replies carry no Content-Length: the body ends where the connection does
         self.stop = False
         self.sock = None
         self.consumed = []  # (symbol, request index or None)
@@ -204,6 +205,9 @@ class Peer(object):
     def respond(self, conn, sym, body):
         """Returns True when the connection stays open."""
         s = self.s
+        if sym == "ok" and self.close_delimited:
+            self.send_response(conn, 200, "OK", body, extra=("Connection: close",), length=False)
+            return False
         if sym == "ok":
             self.send_response(conn, 200, "OK", body)
             return not self.http10
